@@ -16,6 +16,16 @@ import vt
 import zonecheck
 
 
+KNOWN_PROBES = [
+    ("basic-era-change-into-policy", "basic",
+     "Rule\tPA\t1992\t2022\t-\tMar\t15\t1:00w\t2:00\tS\n"
+     "Rule\tPA\t1992\t2022\t-\tOct\tlastThu\t2:00w\t0\t-\n"
+     "Zone\tGen/Zone1\t-2:15\t-\tLMT\t1979\n"
+     "\t\t\t-3:15\t-\tXST\t2014\n"
+     "\t\t\t-4:15\tPA\tAAA/BBBB\n"),
+]
+
+
 def corpora(ctx, work):
     """-> [(label, src_text, stats)]"""
     out = []
@@ -155,12 +165,34 @@ def run(ctx):
             check_compiled(ctx, label, src, scope, work, thorough, nt)
         if thorough and label == "real2025b":
             check_compiled(ctx, label + "y", src, "extended", work, thorough, nt, start_year=1995, until_year=2040)
+    # ---- fixed probes for the listed known findings (so that each is re-examined on every run) ----
+    for key, scope, text in KNOWN_PROBES:
+        d = os.path.join(work, "probe_" + "".join(c for c in key if c.isalnum())[:30])
+        odir = os.path.join(d, "zic")
+        ok, err = tzoracle.zic_compile(text, odir)
+        if not ok:
+            raise vt.HarnessError("zic rejected a known-finding probe")
+        r = compilelib.compile_source(d, "probe", text, scope, "arduino", db_namespace="probe")
+        if r["rc"] != 0:
+            continue
+        exe = compilelib.build_with_generated("C03", "sweep_probe_" + key[:12].replace(":", "_"), "sweep.cpp", x_out=r["outdir"] if scope == "extended" else None,
+                                              x_ns="probe", b_out=r["outdir"] if scope == "basic" else None, b_ns="probe")
+        db = "x" if scope == "extended" else "b"
+        for zi, z in enumerate(sweeplib.list_zones(exe, db)):
+            res = zonecheck.check_zone(dict(exe=exe, db=db, zi=zi, zone=z, odir=odir, t0=tzoracle.t_of(2000), t1=tzoracle.t_of(2050), stride=300,
+                                            radius=120, nprobe=10, seed=ctx.seed))
+            ctx.evaluations += res["evaluations"]
+            if res["diffs"]:
+                ctx.violation(key, {"source": text, "scope": scope, "diff": res["diffs"][0]}, "probe for %s still fails: %s" % (key, json.dumps(res["diffs"][0], default=str)[:400]))
     # ---- generated sources ----
     gen_stats = {"n": 0, "features": {}, "zic_rejected": 0, "compiler_rejected": 0, "zones_compared": 0}
     fails = []
 
+    batch = {"extended": [], "basic": []}
+
     def one(src_obj, basic, sy, uy):
         text = tzgen.render(src_obj)
+        batch["basic" if basic else "extended"].append(src_obj)
         gen_stats["n"] += 1
         v = check_generated_source(ctx, text, "basic" if basic else "extended", sy, uy, work, "gen%d" % gen_stats["n"], gen_stats, nt)
         for f in tzgen.features(src_obj):
@@ -180,6 +212,51 @@ def run(ctx):
         one(src_obj, basic, sy, uy)
 
     gen()
+    # ---- generated sources through path A, compiled together per scope (names made unique by a per-source prefix) ----
+    for scope in ("extended", "basic"):
+        objs = batch[scope][: (400 if thorough else 120)]
+        if not objs:
+            continue
+        text = "".join(tzgen.render(o, "S%d" % i) for i, o in enumerate(objs))
+        odir = os.path.join(work, "zic_genbatch_" + scope)
+        ok, err = tzoracle.zic_compile(text, odir)
+        if not ok:
+            raise vt.HarnessError("zic rejected the batch of generated sources: " + err[:400])
+        ns = "gen" + scope[0]
+        r = compilelib.compile_source(work, "genbatch_" + scope, text, scope, "arduino", db_namespace=ns, tz_version="generated")
+        if r["rc"] != 0:
+            ctx.violation("gen-batch-compiler-failed:" + scope, {"log": r["log"][-1500:]}, "tzcompiler.py failed on the generated batch (%s): %s" % (scope, r["log"][-600:]))
+            continue
+        tzj = compilelib.load_tzdb_json(r["outdir"])
+        trunc = c03lib.truncated_zones(tzj)
+        exe = compilelib.build_with_generated("C03", "sweep_genbatch_" + scope, "sweep.cpp", x_out=r["outdir"] if scope == "extended" else None,
+                                              x_ns=ns, b_out=r["outdir"] if scope == "basic" else None, b_ns=ns)
+        db = "x" if scope == "extended" else "b"
+        listed = sweeplib.list_zones(exe, db)
+        jobs = [dict(exe=exe, db=db, zi=zi, zone=z, odir=odir, t0=tzoracle.t_of(2000), t1=tzoracle.t_of(2050), stride=300, radius=120,
+                     nprobe=50, seed=ctx.seed) for zi, z in enumerate(listed) if z not in trunc]
+        inconclusive = 0
+        for res in vt.pmap(zonecheck.check_zone, jobs):
+            if res["harness"]:
+                inconclusive += 1
+                continue
+            ctx.evaluations += res["evaluations"]
+            if res["transitions"]:
+                nt.add(("generated", scope, "A", res["zone"]))
+            import re as _re
+            m = _re.match(r"Gen/S(\d+)", res["zone"])
+            single = tzgen.render(objs[int(m.group(1))]) if m else ""
+            for d in res["diffs"]:
+                fails.append({"key": "gen-semantics-A:%s:%s" % (scope, d["kind"]), "msg": "generated C++ tables, zone %s: %s" % (res["zone"], json.dumps(d, default=str)[:500]),
+                              "detail": d, "source": single, "scope": scope, "sy": 2000, "uy": 2050})
+            if scope == "extended" and res.get("highwater") is not None and not (res["highwater"] < res["bufsize"]):
+                fails.append({"key": "gen-bufsize", "msg": "zone %s: generated transitionBufSize %d not above pool high-water %d" % (res["zone"], res["bufsize"], res["highwater"]),
+                              "detail": res["zone"], "source": single, "scope": scope, "sy": 2000, "uy": 2050})
+            if scope == "basic" and res.get("dropped"):
+                fails.append({"key": "gen-basic-dropped", "msg": "zone %s: basic processor dropped %d transitions" % (res["zone"], res["dropped"]),
+                              "detail": res["zone"], "source": single, "scope": scope, "sy": 2000, "uy": 2050})
+        ctx.count("generated_zones_path_A_" + scope, len(jobs) - inconclusive)
+        ctx.count("generated_zones_path_A_oracle_inconclusive", inconclusive)
     ctx.count("generated_sources", gen_stats["n"])
     ctx.count("generated_zones_compared", gen_stats["zones_compared"])
     ctx.count("generated_sources_rejected_by_zic", gen_stats["zic_rejected"])
